@@ -422,6 +422,24 @@ def nesting_cases(depths):
             tmap = cb.Pairs([("en", cb.Pairs([(k, text) for k in range(1, 5)] + [([b"M"], cb.Pairs([(k, text) for k in range(1, 7)]))]))])
             yield minimal_env(extra_env=[(23, cb.enc(tmap))]), f"text-pattern/{pname}^{n}"
         yield minimal_env(extra_env=[("#" + "a" * n + "_", b"\x00")]), f"text-pattern/payload-name^{n}"
+    # numbers in the forms CBOR has besides integers (decimal fractions / big floats with enormous exponents, long big numbers, a rational
+    # with denominator zero) - where an integer is expected, and as the CONTENT of byte strings the parser looks into (parameter content,
+    # component identifier parts, key identifiers): a few bytes that are expensive for a careless conversion
+    exotic = {"decimal-huge-exponent": bytes.fromhex("c4821a3b9ac9ff01"), "bigfloat-huge-exponent": bytes.fromhex("c5821a3b9ac9ff01"),
+              "decimal-huge-negative-exponent": bytes.fromhex("c4823a3b9ac9ff01"), "decimal-2^64-exponent": bytes.fromhex("c4821bffffffffffffffff01"),
+              "decimal-long-mantissa": bytes.fromhex("c48200c25864") + b"\xff" * 100, "rational-zero-denominator": bytes.fromhex("d81e820100"), "decimal-small": bytes.fromhex("c4822003")}
+    for nm, raw in exotic.items():
+        R_ = cb.Raw(raw)
+        yield minimal_env(seq_bytes=cb.enc([12, R_])), f"number-form^{nm}/component-index"
+        yield minimal_env(seq_bytes=cb.enc([20, cb.Pairs([(14, R_)])])), f"number-form^{nm}/image-size"
+        yield minimal_env(seq_bytes=cb.enc([3, R_])), f"number-form^{nm}/policy"
+        yield minimal_env(seq_bytes=cb.enc([20, cb.Pairs([(18, raw)])])), f"number-form^{nm}/content-bytes"
+        yield minimal_env(comps=[[raw]]), f"number-form^{nm}/component-part-bytes"
+        yield minimal_env(comps=[[R_]]), f"number-form^{nm}/component-part"
+        man = cb.Pairs([(1, 1), (2, R_), (3, cb.enc(cb.Pairs([(2, [[b"M"]])])))])
+        yield cb.enc(cb.Tag(107, cb.Pairs([(2, cb.enc([cb.enc([-16, bytes(32)])])), (3, cb.enc(man))]))), f"number-form^{nm}/sequence-number"
+        sign1 = cb.enc(cb.Tag(18, [cb.enc(cb.Pairs([(1, -7)])), cb.Pairs([(4, raw)]), None, bytes(64)]))
+        yield cb.enc(cb.Tag(107, cb.Pairs([(2, cb.enc([cb.enc([-16, bytes(32)]), sign1])), (3, cb.enc(cb.Pairs([(1, 1), (2, 1), (3, cb.enc(cb.Pairs([(2, [[b"M"]])])))])))]))), f"number-form^{nm}/key-id-bytes"
     for d in [x for x in depths if x <= 40]:
         e = minimal_env()
         for i in range(d):
@@ -445,6 +463,8 @@ def scaling_families():
         ("integrated-payloads", lambda n: minimal_env(extra_env=[(f"#p{i}", b"\x00\x01") for i in range(n)]), (1600, 6400, 25600)),
         ("try-each-branches", lambda n: minimal_env(seq_bytes=cb.enc([15, [cb.enc([14, 0]) for _ in range(n)]])), (1500, 6000, 24000)),
         ("one-big-payload", lambda n: minimal_env(extra_env=[("#p", bytes(n))]), (10**5, 4 * 10**5, 16 * 10**5)),
+        ("distinct-components", lambda n: minimal_env(comps=[[b"C", (i * 2654435761 % 2**32).to_bytes(4, "big")] for i in range(n)]), (3000, 12000, 48000)),
+        ("dependencies", lambda n: minimal_env(seq_bytes=cb.enc([20, cb.Pairs()]), comps=[[b"D", cb.enc(i)] for i in range(n)]), (3000, 12000, 48000)),
     ]
 
 
